@@ -5,6 +5,8 @@ import (
 	"context"
 	"errors"
 	"fmt"
+	"reflect"
+	"strings"
 	"time"
 
 	"github.com/NethermindEth/juno/blockchain/networks"
@@ -118,23 +120,129 @@ func (f flags) target() migration.SchemaVersion {
 	return t
 }
 
-// prodRegistry mirrors node.registerMigrations (first four entries, same order, same optional
-// flags) and appends the harness's well-behaved optional migration as a fifth entry.
-func prodRegistry(f flags, rl *runLog, aux *toy) *migration.Registry {
-	r := migration.NewRegistry()
-	for i := 0; i < f.entries; i++ {
-		switch i {
-		case idxBlockTx:
-			r.With(&recMig{inner: &blocktransactions.Migrator{}, idx: i, rl: rl})
-		case idxPrune:
-			r.WithOptional(&recMig{inner: historyprunner.New(f.retained, f.minAge), idx: i, rl: rl}, f.prune, "prune-mode")
-		case idxNewState:
-			r.WithOptional(&recMig{inner: &headstate.Migrator{}, idx: i, rl: rl}, f.newState, "new-state")
-		case idxSDL:
-			r.With(&recMig{inner: &statedifflength.Migrator{}, idx: i, rl: rl})
-		case idxAux:
-			r.WithOptional(&recMig{inner: aux, idx: i, rl: rl}, f.aux, "jsim-aux")
+// releasedSchema is the bit assignment of the released schema: schema metadata (applied bits, last
+// target) and resume tokens written by earlier releases use exactly these positions, whatever flags
+// the node was started with. It is a constant of the harness, stated from the released schema; it
+// is NOT derived from the registry under test (that registry is judged against it).
+type schemaSlot struct {
+	what    string       // for messages
+	optFlag string       // "" = mandatory
+	typ     reflect.Type // the migration registered at this position
+}
+
+var releasedSchema = [nProd]schemaSlot{
+	idxBlockTx:  {"block-transactions", "", reflect.TypeOf(&blocktransactions.Migrator{})},
+	idxPrune:    {"history-pruning", "prune-mode", reflect.TypeOf(&historyprunner.Migrator{})},
+	idxNewState: {"head-state", "new-state", reflect.TypeOf(&headstate.Migrator{})},
+	idxSDL:      {"state-diff-length", "", reflect.TypeOf(&statedifflength.Migrator{})},
+}
+
+// nodeConfig is the part of node.Config a start with flags f hands to node.registerMigrations.
+func nodeConfig(f flags) *Config {
+	return &Config{Prune: f.prune, NewState: f.newState, RetainedBlocks: f.retained, PruneMinAge: f.minAge}
+}
+
+// flagCombos: every combination of the node's optional-migration flags the harness starts binaries with.
+var flagCombos = [...]struct{ prune, newState bool }{{false, false}, {false, true}, {true, false}, {true, true}}
+
+// registryShape is the structural oracle of the node's registry construction (the CURRENT source of
+// node.registerMigrations, see overlay.py), evaluated at every start: whatever the start flags, the
+// registry the node would build has the released number of entries, the released optional flag
+// names at the released positions and the released migration at every position. A registry whose
+// shape depends on the start flags gives one bit two meanings across restarts with different flags
+// (or across an upgrade from a release): pending migrations no longer run once and in order, and
+// the refusal of binaries that lack an applied / opted-in migration judges the wrong migration.
+// Only Count / OptionalMigrationFlags / Entries are looked at; which optional entries a flag
+// combination enables is left to the behavioural oracles.
+func registryShape(f flags) *mismatch {
+	for _, fc := range flagCombos {
+		g := f
+		g.prune, g.newState = fc.prune, fc.newState
+		r := nodeRegisterMigrations(nodeConfig(g))
+		combo := fmt.Sprintf("prune-mode=%v,new-state=%v", fc.prune, fc.newState)
+		if r.Count() != nProd {
+			return &mismatch{"registry_shape", fmt.Sprintf("%s:count_%d_released_%d", combo, r.Count(), nProd),
+				fmt.Sprintf("started with %s the node registers %d migrations %s; the released schema has %d positions %s", combo, r.Count(), shapeStr(r), nProd, releasedStr())}
 		}
+		names, entries := r.OptionalMigrationFlags(), r.Entries()
+		for i, want := range releasedSchema {
+			if names[i] != want.optFlag {
+				return &mismatch{"registry_shape", fmt.Sprintf("%s:index_%d_is_%s_released_%s", combo, i, optStr(names[i]), optStr(want.optFlag)),
+					fmt.Sprintf("started with %s the node registers %s; released schema: %s", combo, shapeStr(r), releasedStr())}
+			}
+			if got := reflect.TypeOf(entries[i]); got != want.typ {
+				return &mismatch{"registry_shape", fmt.Sprintf("%s:index_%d_migration_%v_released_%v", combo, i, got, want.typ),
+					fmt.Sprintf("started with %s the node registers %s; released schema: %s", combo, shapeStr(r), releasedStr())}
+			}
+		}
+	}
+	return nil
+}
+
+func optStr(flag string) string {
+	if flag == "" {
+		return "mandatory"
+	}
+	return "optional(" + flag + ")"
+}
+
+func shapeStr(r *migration.Registry) string {
+	names := r.OptionalMigrationFlags()
+	s := "["
+	for i, m := range r.Entries() {
+		s += fmt.Sprintf("%d:%T", i, m)
+		if names[i] != "" {
+			s += "(optional --" + names[i] + ")"
+		}
+		s += " "
+	}
+	return strings.TrimSuffix(s, " ") + "]"
+}
+
+func releasedStr() string {
+	s := "["
+	for i, w := range releasedSchema {
+		s += fmt.Sprintf("%d:%v", i, w.typ)
+		if w.optFlag != "" {
+			s += "(optional --" + w.optFlag + ")"
+		}
+		s += " "
+	}
+	return strings.TrimSuffix(s, " ") + "]"
+}
+
+// prodRegistry is the registry of one binary start: the production part is built by the CURRENT
+// source of node.registerMigrations (nodeRegisterMigrations, generated by overlay.py) from the
+// start's flags; every entry is then re-registered, wrapped in a recorder, at the SAME position
+// with the same optional flag name and the same enabled state, using only the registry's public
+// API (entry i is optional iff its flag name is non-empty, enabled iff bit i of the target version
+// is set). The recorder's index is the position in the registry under test - the position the
+// runner persists - and is what the behavioural oracles compare with the released assignment.
+// f.entries < nProd models an older binary that knows only the first f.entries migrations;
+// f.entries > nProd appends the harness's well-behaved optional migration after the node's entries.
+func prodRegistry(e *env, f flags, rl *runLog, aux *toy) *migration.Registry {
+	if m := registryShape(f); m != nil && e.shape == nil {
+		// reported when the run ends unless a behavioural oracle speaks first (see C18)
+		e.shape = m
+		e.c.Logf("registry shape differs from the released schema: %s", m.key)
+	}
+	node := nodeRegisterMigrations(nodeConfig(f))
+	entries, names, tgt := node.Entries(), node.OptionalMigrationFlags(), node.TargetVersion()
+	keep := len(entries)
+	if f.entries < nProd {
+		keep = min(keep, f.entries)
+	}
+	r := migration.NewRegistry()
+	for i := 0; i < keep; i++ {
+		m := &recMig{inner: entries[i], idx: i, rl: rl}
+		if enabled := tgt.Has(uint8(i)); names[i] != "" || !enabled {
+			r.WithOptional(m, enabled, names[i])
+		} else {
+			r.With(m)
+		}
+	}
+	if f.entries > nProd {
+		r.WithOptional(&recMig{inner: aux, idx: r.Count(), rl: rl}, f.aux, "jsim-aux")
 	}
 	return r
 }
